@@ -42,6 +42,7 @@ func cmdVerify(args []string) {
 	showModel := fs.Bool("model", false, "print models of failed obligations")
 	all := fs.Bool("all", false, "verify every function that has a contract")
 	sweep := fs.String("sweep", "", "verify every function whose key contains this string")
+	sites := fs.Bool("sites", false, "list the call sites of each function by contract name and source line")
 	quietOK := fs.Bool("q", false, "print only obligations that are not proved")
 	ov := fs.String("ov", "", "overlay: /repo/path.go=/tmp/replacement.go[,...]")
 	fs.Parse(args)
@@ -84,6 +85,11 @@ func cmdVerify(args []string) {
 		key := eng.resolveKey(k)
 		r := safeVerify(eng, key, *timeout)
 		fmt.Printf("== %s  (gen %d ms, solve %d ms, blocks %d/%d, vacuity %s)\n", r.Name, r.GenMS, r.SolveMS, r.Blocks, r.BlocksAll, r.Vacuity)
+		if *sites {
+			for _, l := range r.Sites {
+				fmt.Println("   site", l)
+			}
+		}
 		if r.Auto != nil {
 			fmt.Printf("   value function: refuted post-conditions and safety obligations are replayed by a generated driver (%d input leaves)\n", len(r.Auto.Leaves))
 		}
